@@ -9,7 +9,7 @@ import (
 )
 
 // Issues returns a channel with gitlab project issues, ascending order.
-func Issues(ctx context.Context, client *gitlab.Client, pid string, since time.Time) <-chan *gitlab.Issue {
+func Issues(ctx context.Context, client *gitlab.Client, pid string, since time.Time, onErr func(error)) <-chan *gitlab.Issue {
 	out := make(chan *gitlab.Issue)
 
 	go func() {
@@ -24,6 +24,9 @@ func Issues(ctx context.Context, client *gitlab.Client, pid string, since time.T
 		for {
 			issues, resp, err := client.Issues.ListProjectIssues(pid, &opts, gitlab.WithContext(ctx))
 			if err != nil {
+				if onErr != nil {
+					onErr(err)
+				}
 				return
 			}
 
